@@ -11,7 +11,7 @@ git -C /repo worktree add --detach $wt HEAD -q || exit 1
 cd $wt
 cp $src/demo.rs tests/demo_mut.rs
 feat=""; found=0
-for f in "" "async" "verif-hooks" "vmem" "vmem,async"; do
+for f in ${FEAT:-"" "async" "verif-hooks" "vmem" "vmem,async"}; do
   if [ "$id" = "C17" ] && [[ "$f" != vmem* ]]; then continue; fi
   o=$(cargo test --offline ${f:+--features $f} --test demo_mut 2>&1)
   if echo "$o" | grep -q "^test result: ok\. [1-9]"; then feat=$f; found=1; break; fi
